@@ -23,9 +23,10 @@ ASSUMPTIONS = [
     'header -> TFLAG/ETFLAG); payload floats are bit copies and are not '
     'modelled symbolically (compared in replay)',
     'one3d (= humidity, vertical_diffusivity), temperature, height_pressure, '
-    'wind: the whole writer function on a byte sink (checks/metwrite.py) composed '
+    'wind, cloud_rain: the whole writer function on a byte sink (checks/metwrite.py) composed '
     'with the readers\' ConvertCAMxTime; payload concrete incl. -0.0 and a '
-    'denormal; lateral boundary, land-use and cloud/rain are NOT '
+    'denormal; lateral boundary: only the time-header statements '
+    '(sliced) with the reader\'s ConvertCAMxTime; land-use is NOT '
     'covered; the idempotent-rewrite clause is not claimed',
     'whole-hour steps; float32 header times are exact for whole hours '
     '(|HHMMSS| < 2**24) so they are modelled as reals',
@@ -45,12 +46,12 @@ MANIFEST = {
             'ETFLAG variable), the begin flags read back equal the flags '
             'written and the end flags equal begin + 1 h, including day, '
             'leap-day, year and century roll-overs. For the one3d, '
-            'temperature, height_pressure and wind writers: every record written '
+            'temperature, height_pressure, wind and cloud_rain writers: every record written '
             'equals the reference layout (markers, HHMM time, YYJJJ date, '
             'payload bytes) and the readers\' time reconstruction returns the '
             'flags, for every start day/hour of the enumerated years.',
     'note': 'Trusted: z3, symdatetime reference arithmetic. Partial claim: '
-            'uamiv time flags and 4 met writers; grid header mapping, '
+            'uamiv and lateral-boundary time flags and 5 met writers; grid header mapping, '
             'rewrite idempotence and the other CAMx formats are outside.',
 }
 
